@@ -125,20 +125,28 @@ theorem child_entry_copy (copied : List (String × String)) (env : Env) :
     (runInChild copied env id).2 = { env with system := Proc.forkFrom copied env.mainPid env.system } := by
   cases env; rfl
 
-/-- ★ A whole subshell of any kind, with any body: the parent shell's state afterwards is what its *own*
-    mutators (those between `&` and `wait`; none for the synchronous kinds) make of the state before, except
-    the exit status — nothing depends on `body`. -/
+/-- ★ A whole subshell of any kind, with any body: the starting shell's state afterwards is what it does *by
+    itself* (`parentSide`: nothing for the synchronous kinds; for `&` its own job-table entry, its own mutators
+    between `&` and `wait`, and the removal of the finished job by `wait $!`), except the exit status — nothing
+    depends on `body`. -/
 theorem subshell_isolated (copied : List (String × String)) (k : Kind) (sh : Shell) (body : Shell → Shell)
     (during : List Op) (h : sh.halted = none) :
     { (runKind copied k sh body during).env with exitStatus := 0 }
-      = { (applyOps { env := sh.env } (if k == .async then during else [])).env with exitStatus := 0 } := by
+      = { (parentSide k sh.env during).env with exitStatus := 0 } := by
   unfold runKind
   simp only [h, Option.isSome_none, Bool.false_eq_true, if_false, startKind_parent, finishKind_env]
 
+/-- … and for the synchronous kinds that is the state before, job table included. -/
+theorem sync_subshell_isolated (copied : List (String × String)) (k : Kind) (sh : Shell) (body : Shell → Shell)
+    (h : sh.halted = none) (hk : k ≠ .async) :
+    { (runKind copied k sh body []).env with exitStatus := 0 } = { sh.env with exitStatus := 0 } := by
+  rw [subshell_isolated copied k sh body [] h]
+  cases k <;> first | exact absurd rfl hk | rfl
+
 example : { (runKind implCopied .paren { env := initialEnv }
-      (fun c => applyOps c [.set "va" "1", .cd "/d1"]) []).env with exitStatus := 0 }
+      (fun c => applyOps c [.set "va" "1", .cd "/d1", .bg]) []).env with exitStatus := 0 }
     = { initialEnv with exitStatus := 0 } :=
-  subshell_isolated implCopied .paren { env := initialEnv } _ [] rfl
+  sync_subshell_isolated implCopied .paren { env := initialEnv } _ rfl (by decide)
 
 /-- ★ `TrapSet::enter_subshell` as run by the child prologue of `Config::start`: afterwards
     (1) no condition has a command action;
@@ -178,6 +186,55 @@ theorem subshell_traps_reset (ii ks : Bool) (env : Env) :
       have := enterState_not_command g.clearParent (Trap.subshellOption c g.clearParent ii ks)
       rw [hcontra] at this
       simp [Action.isCommand] at this
+
+/-- The EXIT trap (and every other trap command) of the starting shell cannot run in the subshell: right
+    after entry no condition has a command to run, so `run_exit_trap` at the end of a child of any kind runs
+    only a command the child itself has set. -/
+theorem subshell_no_inherited_trap_command (ii ks : Bool) (env : Env) (c : Nat) :
+    trapCommandOf (subshellEntry ii ks env) c = none := by
+  unfold trapCommandOf
+  cases h : Trap.get (subshellEntry ii ks env).traps c with
+  | none => rfl
+  | some g =>
+    have hc := (subshell_traps_reset ii ks env).1 c g h
+    cases ha : g.current.action with
+    | command n => rw [ha] at hc; simp [Action.isCommand] at hc
+    | default => simp [ha]
+    | ignore => simp [ha]
+
+/-- ★ Copy on entry, the part of `Config::start`'s child prologue that is NOT the trap reset: aliases,
+    functions, options (`monitor` included), variables, positional parameters, exit status and the process's
+    fd table / cwd / umask are exactly the starter's; the jobs are the same jobs, only disowned, and `$!` still
+    designates the same one; the stack gains the `Subshell` frame. -/
+theorem subshell_entry_copy (ii ks : Bool) (env : Env) :
+    (subshellEntry ii ks env).aliases = env.aliases
+    ∧ (subshellEntry ii ks env).functions = env.functions
+    ∧ (subshellEntry ii ks env).options = env.options
+    ∧ (subshellEntry ii ks env).variables = env.variables
+    ∧ (subshellEntry ii ks env).exitStatus = env.exitStatus
+    ∧ (subshellEntry ii ks env).system.fds = env.system.fds
+    ∧ (subshellEntry ii ks env).system.cwd = env.system.cwd
+    ∧ (subshellEntry ii ks env).system.umask = env.system.umask
+    ∧ (subshellEntry ii ks env).stack = "Subshell" :: env.stack
+    ∧ (subshellEntry ii ks env).jobs.last = env.jobs.last
+    ∧ (subshellEntry ii ks env).jobs.list.map (fun e => (e.1, e.2.1)) = env.jobs.list.map (fun e => (e.1, e.2.1))
+    ∧ (∀ e ∈ (subshellEntry ii ks env).jobs.list, e.2.2 = false) := by
+  refine ⟨rfl, rfl, rfl, rfl, rfl, rfl, rfl, rfl, rfl, rfl, ?_, ?_⟩
+  · show (env.jobs.disownAll).list.map _ = _
+    simp [Jobs.disownAll, List.map_map, Function.comp_def]
+  · intro e he
+    have he' : e ∈ (env.jobs.disownAll).list := he
+    simp only [Jobs.disownAll, List.mem_map] at he'
+    obtain ⟨x, _, rfl⟩ := he'
+    rfl
+
+/-- a shell with `monitor` on and one background job: the subshell still has `monitor` and lists the job -/
+example :
+    let env := (applyOps { env := initialEnv } [.optOn "monitor", .bg]).env
+    env.options.contains "monitor" = true
+    ∧ (subshellEntry false false env).options.contains "monitor" = true
+    ∧ showJobs (subshellEntry false false env).jobs = "j=1 !=j1" := by
+  decide
 
 /-- non-vacuity: a parent with `trap 'probe T1' INT; trap '' QUIT` -/
 example :
